@@ -86,7 +86,7 @@ impl Check for C07 {
                 let via = *g.pick(&["direct", "socks5", "socks5", "http", "udp", "raw", "burst"]);
                 // burst: 2-3 requests for the same host with different ports started at the same instant
                 let more: Vec<u64> = (0..g.range(1, 2)).map(|_| g.range(1, 65_535)).collect();
-                json!({"host": h, "port": port, "more_ports": more, "via": via, "gap_ms": *g.pick(&[0u64, 0, 1_000, 59_000, 61_000, 150_000]), "pieces": g.range(1, 6)})
+                json!({"host": h, "port": port, "more_ports": more, "via": via, "gap_ms": *g.pick(&[0u64, 0, 1_000, 59_000, 61_000, 150_000]), "pieces": g.range(1, 6), "pause_ms": if g.chance(20) { *g.pick(&[6_000u64, 20_000]) } else { 0 }})
             })
             .collect();
         // tiny padding sizes on the client split the first packet (and with it the destination) over many records
@@ -225,7 +225,7 @@ impl Check for C07 {
                             Err(_) => Err("no completion within 120 s".into()),
                         }
                     }
-                    _ => raw_request(&host, port, r["pieces"].as_u64().unwrap_or(1) as usize, ri).await,
+                    _ => raw_request(&host, port, r["pieces"].as_u64().unwrap_or(1) as usize, ri, r["pause_ms"].as_u64().unwrap_or(0)).await,
                 };
                 if let Err(e) = res {
                     out.viol("request-failed", format!("request-failed:{}", sig_kind), format!("request #{} ({} {}:{}) failed without any fault: {}", ri, via, host, port, e));
@@ -301,7 +301,7 @@ impl Check for C07 {
 }
 
 /// raw TLS client: valid preamble, Settings, SYN, destination spread over `pieces` PSH frames
-async fn raw_request(host: &str, port: u16, pieces: usize, ri: usize) -> Result<(), String> {
+async fn raw_request(host: &str, port: u16, pieces: usize, ri: usize, pause_ms: u64) -> Result<(), String> {
     use crate::refcodec as rc;
     let connector = crate::fixtures::connector();
     let tcp = TcpStream::connect(SERVER_ADDR).await.map_err(|e| e.to_string())?;
@@ -314,15 +314,28 @@ async fn raw_request(host: &str, port: u16, pieces: usize, ri: usize) -> Result<
     let dest = socks_addr_bytes(host, port);
     let pieces = std::cmp::max(1, std::cmp::min(pieces, dest.len()));
     let step = (dest.len() + pieces - 1) / pieces;
+    let mut split_at: Option<usize> = None;
     for (k, c) in dest.chunks(step).enumerate() {
         bytes.extend(rc::encode(rc::PSH, 1, c));
+        if k == 0 && pause_ms > 0 && pieces > 1 {
+            // the rest of the destination follows after a long silence
+            split_at = Some(bytes.len());
+        }
         if k % 2 == 0 {
             bytes.extend(rc::encode(rc::WASTE, 0, b"pad"));
         }
     }
     let msg = format!("raw-{}", ri);
     bytes.extend(rc::encode(rc::PSH, 1, msg.as_bytes()));
-    tls.write_all(&bytes).await.map_err(|e| e.to_string())?;
+    if let Some(at) = split_at {
+        tls.write_all(&bytes[..at]).await.map_err(|e| e.to_string())?;
+        tls.flush().await.map_err(|e| e.to_string())?;
+        world::fault_fired("peer.long_silence_inside_destination");
+        sleep(Duration::from_millis(pause_ms)).await;
+        tls.write_all(&bytes[at..]).await.map_err(|e| e.to_string())?;
+    } else {
+        tls.write_all(&bytes).await.map_err(|e| e.to_string())?;
+    }
     tls.flush().await.map_err(|e| e.to_string())?;
     // wait for the echo
     let mut acc = Vec::new();
